@@ -10,7 +10,7 @@ TB = ('Trusted: the pyvc VC generator (engine cross-checked by native replay of 
       'proof. ')
 
 BND = (' Bounded stand-in (labelled bounded in evidence, never counted as proved): runtime postconditions on the real '
-       'public API over every node of the 20 corpus programs x the operation table, CPython ast.parse + own '
+       'public API over every node of the 31 corpus programs x the operation table, CPython ast.parse + own '
        'comparator as oracle.')
 
 CHECKS = {
@@ -18,11 +18,15 @@ CHECKS = {
         category='proof',
         text='Proof of the kernel fragment every structured edit is built on: _put_src equals the uniform text splice '
              'for all line lists, _params_offset/_offset shift every position after the spliced span by exactly the '
-             'size of the change (same obligations as C11). The property itself (parse(src) == live tree after every '
-             'edit) is decided only within the bounded stand-in: ~25k single-step edits and seeded edit sequences, '
-             'each followed by ast.parse + an own tree comparator (types, fields, contexts, all four positions).',
+             'size of the change (same obligations as C11); _offset_lns moves every node by the delta of its line; the '
+             're-indentation kernel _indent_lns/_dedent_lns/_redent_lns (loop invariants, any number of lines) hands '
+             '_offset_lns for every line exactly the column shift of its text, removes leading blanks only and leaves '
+             'other lines alone. The property itself (parse(src) == live tree after every edit) is decided only within '
+             'the bounded stand-in: ~70k single-step edits (replace / remove / cut / slices incl. irregular multi-line '
+             'donors / views / virtual and optional fields / accessors / move and copy between blocks) and seeded edit '
+             'sequences, each followed by ast.parse + an own tree comparator (types, fields, contexts, positions).',
         note=TB + BND + ' Undecided remainder: that each of the ~300 handlers picks the right rectangle/text/AST. '
-             'Findings: F-C01-1 known, F-C01-2 and F-C01-3 fixed (known_findings.json).',
+             'Findings: F-C01-1 known, F-C01-2 and F-C01-3 fixed (known_findings.json). Indentation strings assumed ASCII.',
         technique='contract-based deductive verification of the splice/shift kernel (z3) + bounded runtime contracts '
                   'on every public edit entry point with CPython as oracle',
         ref='DESIGN.md section 4 C01'),
@@ -32,9 +36,11 @@ CHECKS = {
              'ancestor for parent chains of ANY length (loop invariant) and self iff asked, and nothing else; FST.loc and '
              'FST.bloc return a cached answer untouched and otherwise store exactly what they computed under their own '
              'key (loc == CPython extent through b2c); FST.pars selects cache slot parsT/parsF/parsN by its sharing mode '
-             'and answers only from that slot; the byte-coordinate accessors are c2b of loc. "No stale answer after any '
+             'and answers only from that slot; FST.own_lines keys its memo by the RESOLVED docstr value; the byte-coordinate '
+             'accessors are c2b of loc. "No stale answer after any '
              'edit" itself is bounded: after every successful edit of the sweep every query on every node must equal '
-             'the answer on FST(root.src), with every cache populated before the edit.',
+             'the answer on FST(root.src), with every cache populated before the edit (par()/unpar() included; two unpar '
+             'defects found this way are fixed in /repo: F-C02-1, F-C02-2).',
         note=TB + BND + ' Undecided remainder: flush-on-write at the ~60 position-writing sites, link maintenance, the '
              'children worklist of _touchall.',
         technique='contract-based deductive verification of cache/flush primitives (symbolic heap, loop invariant, z3) '
@@ -73,7 +79,8 @@ CHECKS = {
              'bistr.c2b(idx) is the byte length of self[:idx], that b2c(c2b(s)) == s, that the ASCII fast path is the '
              'identity, that the index tables have length len+1 and the stated content, that every value stored in a '
              'fixed-width array.array fits the typecode chosen by _make_array (the only machine-width arithmetic in '
-             'the library), and the memo rebinding protocol. This is the fragment behind "character- and byte-based '
+             'the library), the memo rebinding protocol, pars() answering each of its three modes from its own memo slot '
+             'and the byte-coordinate accessors being c2b of loc. This is the fragment behind "character- and byte-based '
              'coordinates agree". Everything else of C06 is bounded: .loc vs CPython extents, token boundaries, '
              'operators, pars(), nesting, siblings, find_* vs brute force (thorough: standard library). Known findings '
              'F-C06-1/2.',
@@ -107,10 +114,14 @@ CHECKS = {
         text='Proof of the modification-registry protocol: _Modifying.enter/success/fail/__exit__ on the process-'
              'global _MODIFYING (identity-keyed dict, symbolic depth): fresh/nested/reject cases, release restores '
              'the registry exactly, a rejected enter leaves it unchanged, __exit__ releases exactly once and never '
-             'swallows the exception, other roots\' entries are never touched. Atomicity of the handlers themselves '
-             '(tree unchanged after a raise, next edit works) is bounded: every refused edit of the sweep is followed '
-             'by src/dump/registry comparison and a further valid edit.',
-        note=TB + BND + ' Undecided remainder: raise sites inside handlers after a partial splice (bounded only).',
+             'swallows the exception, other roots\' entries are never touched; every _modifying() site is a with-statement '
+             'or an enter()/success()/fail() triple (structural); for 33 put handlers and the raw reparse path every '
+             'validation / coercion / index fix-up precedes the first possibly-mutating call on every path (structural, '
+             'transitive by-name mutator set). Atomicity of the remaining handlers (tree unchanged after a raise, next '
+             'edit works) is bounded: every refused edit of the sweeps, incl. every invalid option value on statement '
+             'and expression targets, is followed by src/dump/registry comparison and a further valid edit.',
+        note=TB + BND + ' Undecided remainder: handlers for which no order obligation could be generated (listed in evidence) and raise '
+             'sites inside mutating helpers (bounded only).',
         technique='contract-based deductive verification of the registry protocol (symbolic heap, z3) + bounded '
                   'failure-atomicity contracts on the public API',
         ref='DESIGN.md section 4 C12'),
@@ -120,9 +131,13 @@ CHECKS = {
              'traverse_prev.py (resolved through the NEXT_FUNCS / PREV_FUNCS dict literals; ~400 entries of 80 node '
              'classes) return exactly the next / previous child in syntactic order: lists are symbolic, optional '
              'fields fork, the specification is an ORDER table written from the grammar and validated against CPython '
-             'positions on every run. The position-merging functions of Call, ClassDef, Dict, MatchMapping, Compare and '
-             'arguments and the walk generator are covered by the bounded stand-in only (walk modes, chains, step_*, '
-             'paths; thorough: standard library). Known finding F-C14-1 (Module.type_ignores has no table entries).',
+             'positions on every run; Dict / MatchMapping / Compare / arguments by a rank-order specification; the '
+             'syntax_ordered_children table entries against ORDER; the two copies of the `all` node filter '
+             '(_check_all_param for stepping, _all_param_func for walk) agree with each other and with the documented '
+             'rule at every point of their finite domain (every AST class x argument emptiness x kind of all). The '
+             'position-merging functions of Call / ClassDef and the walk generator are bounded: exhaustive over every '
+             'argument-like sequence CPython accepts up to length 4 (thorough 5), plus walk modes, chains, step_*, '
+             'paths on the corpus (thorough: standard library). Known finding F-C14-1 (Module.type_ignores).',
         note=TB + 'ORDER table is trusted only as far as its per-run validation against CPython on the corpus goes. '
              + BND,
         technique='contract-based deductive verification of generated code (symbolic lists, z3) against a '
@@ -170,10 +185,14 @@ CHECKS = {
              'check_options rejects exactly unknown/bad entries and never writes; set_options is atomic (no write on '
              'any exceptional exit, single update afterwards, returns the old values, a marker cannot bypass '
              'validation); the options() context manager restores every managed key on normal and exceptional exit '
-             'whatever the block did; get_option prefers the per-call value. Thread isolation is NOT proved over '
-             'schedules: a bounded native check creates worker threads sequentially.',
+             'whatever the block did; get_option prefers the per-call value; the only module-level state written after '
+             'import is an allowed list, the store is a threading.local never aliased at module level (structural '
+             'footprint scan); the lazily built index arrays of shared line objects are published only after they are '
+             'filled (structural; F-C20-1, a genuine cross-thread race, fixed in /repo); own_lines keys its memo by the '
+             'resolved default. Thread isolation is NOT proved over schedules: the bounded native check creates worker '
+             'threads sequentially plus 4 timed two-thread runs on copies of one tree.',
         note=TB + 'threading.local and contextlib.contextmanager assumed to behave as documented; the 19 per-option '
-             'checkers are uninterpreted verdicts. No concurrent execution is performed or claimed.',
+             'checkers are uninterpreted verdicts. Schedules are not controlled; nothing is claimed over interleavings.',
         technique='contract-based deductive verification (for-all loop rule over symbolic dicts, z3) + bounded '
                   'runtime contracts on the option API incl. worker threads',
         ref='DESIGN.md section 4 C20'),
@@ -181,7 +200,10 @@ CHECKS = {
         category='proof',
         text='Proof of the index layer every container edit goes through: fixup_slice_indices, fixup_one_index and '
              'clip_src_loc equal Python\'s own slice.indices / list indexing for ALL lengths, indices, start_at and '
-             '\'end\' (z3, unbounded), idempotence of normalisation, refusal only for inverted slices. The handlers\' '
+             '\'end\' (z3, unbounded), idempotence of normalisation, refusal only for inverted slices; the FSTView window '
+             'arithmetic (14 methods against a Python list-window model, name indexing included) and the thin FST entry '
+             'points (insert/append/extend/prepend/prextend, parameter swizzle) designate exactly the range the Python '
+             'list operation designates. The handlers\' '
              'implementation of the container law is covered only by the bounded stand-in (labelled bounded in '
              'evidence).',
         note=TB + 'Undecided remainder: per-node-type slice/one handlers (bounded only). Known finding F-C03-1 '
@@ -195,7 +217,10 @@ CHECKS = {
              'real function at every well-typed (slot, child kind) point of the expression and pattern grammar '
              '(~4800 points, 3500 distinct type triples) and must answer True wherever CPython\'s parser shows that '
              'the bare text regroups or is rejected; totality of the by-type function over 47k flag points. The put '
-             'path that consults the oracle is covered by the bounded stand-in.',
+             'path that consults the oracle is bounded: every slot template (+ async heads and leftmost positions inside '
+             'f-string fields) x layouts {bare, parenthesised, tight, multi-line} x every child kind (+ multi-line '
+             'children, children with comments ending in a backslash) x code forms: real replace(), then CPython must '
+             'find exactly the child in that position. F-C09-1 (comment backslash taken for a continuation) fixed.',
         note='Trusted: CPython 3.12 ast.parse as the definition of "parentheses required"; one representative source '
              'per child kind (the oracle depends on types and flags only). Undecided remainder: _is_atom / '
              '_is_enclosed_* text scanners and the parenthesisation decision in _make_exprlike_fst (bounded only).',
@@ -206,12 +231,15 @@ CHECKS = {
         category='proof',
         text='Proof of the two kernel facts the raw path rests on: clip_src_loc normalises any requested rectangle '
              'into valid coordinates (or raises exactly when the end precedes the start) and _put_src performs exactly '
-             'the requested text splice (for all line lists). The property itself is decided only within the bounded '
-             'stand-in: put_src(action=reparse) over rectangles between token boundaries x 9 replacement texts, '
-             'raw=True/auto puts, with ast.parse of the whole new source as oracle (either raise + nothing changed, or '
+             'the requested text splice (for all line lists); _code_as_lines is the exact inverse of "\\n".join for every '
+             'code point as separator (finite, exhaustive); in _reparse_raw_base/_stmtlike/_reparse_raw/put_src/reparse '
+             'every operation that raises by contract precedes the first mutation of the real tree on every path '
+             '(structural all-paths obligation). The property itself is decided only within the bounded '
+             'stand-in: put_src(action=reparse) over rectangles between token boundaries x 11 replacement texts, a space '
+             'after every block keyword, raw=True/auto puts, raw puts with to=, with ast.parse of the whole new source as oracle (either raise + nothing changed, or '
              'src == splice and tree == parse; succeeds iff valid). The sweep is deterministic; every disagreement on '
              'the unchanged tree is listed by exact input in known_findings.json (F-C10-1..3, genuine defects).',
-        note=TB + BND + ' Undecided remainder: parse-before-mutate order in _reparse_raw_* and the statement wrappers.',
+        note=TB + BND + ' Undecided remainder: correctness of the synthetic statement wrappers used to reparse in isolation.',
         technique='contract-based deductive verification of clip/splice (z3) + bounded runtime contracts on '
                   'put_src/raw puts with CPython as oracle',
         ref='DESIGN.md section 4 C10'),
@@ -222,7 +250,9 @@ CHECKS = {
              'unchanged, at the spot => priority rule) for all positions, deltas, 9 tail/head settings, exclusion and '
              'decorator shapes; pruning (break/continue) soundness lemmas; _params_offset maps the old end to the new '
              'end in byte coordinates; _put_src equals the uniform splice for all line lists (ropes, piecewise '
-             'lists), calls _offset before the text changes and returns the parameters. ~40k path obligations.',
+             'lists), calls _offset before the text changes and returns the parameters; put_src(action=offset) entry guard, '
+             'two phases and composition lemma; clip_src_loc; _code_as_lines exact for every code point. ~44k path '
+             'obligations.',
         note=TB + 'Tree-order invariant (siblings ordered, children inside parents) is a precondition of the pruning '
              'lemmas. Undecided remainder: worklist completeness of the two walks (bounded stand-in).',
         technique='contract-based deductive verification: symbolic execution of the real _offset/_put_src/'
